@@ -153,8 +153,28 @@ func vreadsHold(rows []vrow, x *vtx, r0a string, readAfterWrite bool) bool {
 // transactions that committed before it, in commit order (no lost update, no phantom, no write
 // skew); the final state equals the serial application of the committed transactions.
 //
-//symgo:harness prop=C01 tier=quick shards=16 timeout=600 ttimeout=1700 bounds=1_committed_row;2_concurrent_transactions_x_(1_read_+_1_write);5_interleavings;1-byte_values outside=more_than_2_concurrent_transactions;longer_transactions
-func VerifC01Serial() {
+//symgo:harness prop=C01 tier=thorough tshards=16 ttimeout=3000 bounds=1_committed_row;2_concurrent_transactions_x_(1_read_of_either_kind_+_1_write_of_either_kind);5_interleavings;1-byte_values outside=more_than_2_concurrent_transactions;longer_transactions
+func VerifC01Serial() { vserial(-1, -1, 5) }
+
+// C01 quick slice 1: both transactions scan a range and then insert a row (phantoms, write skew).
+//
+//symgo:harness prop=C01 tier=quick shards=16 timeout=600 bounds=1_committed_row;2_concurrent_transactions_each_(range_scan_then_output);4_interleavings;1-byte_values
+func VerifC01ScanInsert() { vserial(0, 0, 4) }
+
+// C01 quick slice 2: both transactions do a keyed lookup (hit or miss) and then move the
+// committed row to a new key (lost update, update into a key the other looked up).
+//
+//symgo:harness prop=C01 tier=quick shards=16 timeout=600 bounds=1_committed_row;2_concurrent_transactions_each_(lookup_then_key-changing_update);4_interleavings;1-byte_values
+func VerifC01LookupUpdate() { vserial(1, 1, 4) }
+
+// C01 quick slice 3: one transaction scans and moves the row, the other looks up and inserts.
+//
+//symgo:harness prop=C01 tier=quick shards=16 timeout=600 bounds=1_committed_row;T0_(range_scan_then_key-changing_update),T1_(lookup_then_output);4_interleavings;1-byte_values
+func VerifC01Mixed() { vserial(2, 2, 4) }
+
+// vserial runs the scenario; readSel/writeSel: -1 = any kind for both transactions (forked),
+// 0/1 = that kind for both, 2 = (0,1) for T0 and (1,0) for T1; nsched = number of interleavings.
+func vserial(readSel, writeSel, nsched int) {
 	db := vnewdb()
 	vcreateT(db)
 	var rows []vrow
@@ -165,7 +185,18 @@ func VerifC01Serial() {
 	var x [2]*vtx
 	for i := range x {
 		n := string(rune('0' + i))
-		x[i] = &vtx{readKind: rt.Pick("read"+n, 2), writeKind: rt.Pick("write"+n, 2),
+		rk, wk := readSel, writeSel
+		if readSel == -1 {
+			rk = rt.Pick("read"+n, 2)
+		} else if readSel == 2 {
+			rk = i
+		}
+		if writeSel == -1 {
+			wk = rt.Pick("write"+n, 2)
+		} else if writeSel == 2 {
+			wk = 1 - i
+		}
+		x[i] = &vtx{readKind: rk, writeKind: wk,
 			a: rt.Str("a"+n, 1), b: "b" + n}
 		if x[i].writeKind == 1 {
 			rt.Assume(x[i].a != r0.a) // a real change (write-free transactions are serialised at their snapshot)
@@ -183,7 +214,7 @@ func VerifC01Serial() {
 	commit := func(i int) { x[i].commit(db) }
 	order := [2]int{0, 1} // commit order
 	readAfterWrite := false
-	switch rt.Pick("schedule", 5) {
+	switch rt.Pick("schedule", nsched) {
 	case 0:
 		start(0)
 		start(1)
